@@ -919,6 +919,9 @@ class FuncInterp(ModelsMixin, CallModelsMixin):
             return
         self.mutate(base.pts, node, "subscript store")
         # weak update of the element abstraction of every variable designating the container
+        if "slice" in idx.ty and not (base.ty & {"ndarray"}):
+            # lst[a:b] = seq stores the elements of seq
+            v = self.iter_elem_simple(v).add_dep(v.dep, EMPTY)
         self.update_elem(base, v.add_dep(idx.dep, EMPTY), st)
 
     def update_elem(self, base: Val, v: Val, st: State):
@@ -1325,6 +1328,11 @@ class FuncInterp(ModelsMixin, CallModelsMixin):
                 pass
             else:
                 handled.add(t)
+        insts = base.insts()
+        if len(insts) > 1 and isinstance(node, ast.Attribute) and isinstance(node.value, ast.Name) and node.value.id in st.env and not handled:
+            has = [c for c in insts if self.prog.lookup(c, attr, "getter", down=False) or self.prog.lookup(c, attr, "method", down=False) or self.prog.lookup(c, attr, "setter", down=False)]
+            if has and len(has) < len(insts) and not attr.startswith("_"):
+                st.env[node.value.id] = base.with_(ty={"inst:" + c for c in has})
         if handled or res is None:
             res = join(res, self.builtin_attr(base, attr, st, node, handled))
         if getters_called:
@@ -1396,6 +1404,11 @@ class FuncInterp(ModelsMixin, CallModelsMixin):
             if gl:
                 self.rec_call(node, gl, argl, "getter-cha", recv=base, ret=res)
                 self.ctx.unresolved.append(f"{self.loc(node)}: .{attr} on unknown receiver (CHA)")
+                # duck typing: the access succeeded, so the object is an instance of a class that has the property
+                if isinstance(node, ast.Attribute) and isinstance(node.value, ast.Name) and node.value.id in st.env:
+                    tops = {g.clsname for g in gl}
+                    tops = {c for c in tops if not any(c != d and self.prog.is_subclass(c, d) for d in tops)}
+                    st.env[node.value.id] = base.with_(ty=(base.ty - {"?"}) | {"inst:" + c for c in tops})
                 return res
             ms = [ci.methods[attr] for ci in self.prog.classes.values() if ci.module != "__classes__" and attr in ci.methods and ci.methods[attr].kind == "method"]
             if ms:
